@@ -117,3 +117,28 @@ pub fn inscase(c: &J) -> J {
     }
     json!({"id": c["id"], "calls": c["calls"], "steps": steps})
 }
+
+/// C11: {"id","tpl": string, "vals":[Value]} -> cust_with_values rendered inline and
+/// parameterised on 3 backends, the literal of every value, and inject_parameters of the build.
+pub fn tplcase(c: &J) -> J {
+    use crate::per_backend;
+    use crate::util::alnum_flags;
+    use crate::val::{from_value, to_value};
+    let tpl = c["tpl"].as_str().unwrap().to_string();
+    let vals: Vec<Value> = c["vals"].as_array().unwrap().iter().map(to_value).collect();
+    let lits = {
+        let vals = vals.clone();
+        per_backend!(B => json!(vals.iter().map(|v| B::default().value_to_string(v)).collect::<Vec<String>>()))
+    };
+    let t2 = tpl.clone();
+    let v2 = vals.clone();
+    let obs = per_backend!(B => {
+        let q = Query::select().expr(Expr::cust_with_values(t2.clone(), v2.clone())).to_owned();
+        let inline = q.to_string(B::default());
+        let (sql, values) = q.build(B::default());
+        let inj = guarded(|| json!(inject_parameters(&sql, values.0.clone(), &B::default())));
+        json!({"inline": inline, "sql": sql, "al_sql": alnum_flags(&sql),
+               "values": values.0.iter().map(from_value).collect::<Vec<J>>(), "inject": inj})
+    });
+    json!({"id": c["id"], "tpl": tpl, "al": alnum_flags(&tpl), "vals": c["vals"], "lits": lits, "obs": obs})
+}
